@@ -10,4 +10,6 @@ INVARIANT SplitPrefixCovered
 INVARIANT SpecialsAccepted
 INVARIANT BackEndsAccepted
 INVARIANT AsDeliveredRejected
+INVARIANT UdLengthsAccepted
+INVARIANT PaddedUnsignedRejected
 CHECK_DEADLOCK TRUE
